@@ -3,6 +3,7 @@ import Gowarc.Driver.BufH
 import Gowarc.Driver.DigestH
 import Gowarc.Driver.ParseH
 import Gowarc.Driver.RecordH
+import Gowarc.Driver.BlockH
 namespace Gowarc.Driver
 
 def handleLine (line : String) : String :=
@@ -24,6 +25,7 @@ def handleLine (line : String) : String :=
       | "roundtrip" => handleRoundtrip args
       | "valhdr" => handleValHdr args
       | "xpol" => handleXpol args
+      | "block" => handleBlock args
       | "xpolb" => handleXpolBuild args
       | _ => "unknown-kind"
     id ++ " " ++ out
